@@ -133,11 +133,15 @@ func Run(c *rt.Ctx, s *Spec) Stats {
 			for i, h := range part {
 				jobs[i] = Job{Spec: s.Name, Hist: h}
 			}
-			c.Pool.Map(jobs, func(i int, r rt.JobResult) {
+			// results are judged in job order (not completion order): which history represents a canonical state, and so
+			// the whole search, is the same in every run
+			results := make([]rt.JobResult, len(jobs))
+			c.Pool.Map(jobs, func(i int, r rt.JobResult) { results[i] = r })
+			for i, r := range results {
 				h := part[i]
 				if r.Died {
 					c.Violate(s.Prop+"/worker-died/"+s.Name, fmt.Sprintf("the process died while executing history %v of scenario %s (a panic outside any recoverable goroutine?): %s", h, s.Name, tail(r.Stderr)), map[string]any{"spec": s.Name, "hist": h})
-					return
+					continue
 				}
 				var res Res
 				if err := json.Unmarshal(r.Out, &res); err != nil {
@@ -147,6 +151,9 @@ func Run(c *rt.Ctx, s *Spec) Stats {
 					rt.HarnessError("scenario %s history %v: %s", s.Name, h, res.Err)
 				}
 				st.Transitions++
+				if os.Getenv("VERIF_DEBUG_BFS") != "" {
+					fmt.Printf("BFS %s %v -> %d violations, canon %s\n", s.Name, h, len(res.V), res.Canon)
+				}
 				for k, v := range res.Outcomes {
 					st.Outcomes[k] += v
 				}
@@ -161,7 +168,7 @@ func Run(c *rt.Ctx, s *Spec) Stats {
 					c.Violate(s.Prop+"/"+v.Key, fmt.Sprintf("[%s] after history %v: %s", s.Name, h, v.What), map[string]any{"spec": s.Name, "hist": h})
 				}
 				if seen[res.Canon] {
-					return
+					continue
 				}
 				seen[res.Canon] = true
 				newStates++
@@ -175,7 +182,7 @@ func Run(c *rt.Ctx, s *Spec) Stats {
 						next = append(next, nh)
 					}
 				}
-			})
+			}
 		}
 		st.PerDepth = append(st.PerDepth, newStates)
 		st.States += newStates
